@@ -94,7 +94,10 @@ func (c *Cmd) Lattice(f *Field, thorough bool) []Choice {
 				vals = append(vals, p)
 			}
 		}
-		seen := map[uint64]bool{0: true}
+		// zero last: a no-op from the all-default base, but a value of its own from the all-non-default base and
+		// wherever a constructor presets something else ("0 means unset" slips)
+		vals = append(vals, 0)
+		seen := map[uint64]bool{}
 		for _, x := range vals {
 			if seen[x] {
 				continue
@@ -151,6 +154,8 @@ func (c *Cmd) Lattice(f *Field, thorough bool) []Choice {
 				n := n
 				add(fmt.Sprintf("pad%d", n), func(v reflect.Value) { v.SetBytes(make([]byte, n)) })
 			}
+			// padding is a field like any other to the codec: its bytes are the caller's and come back as sent
+			add("pad2:a55a", func(v reflect.Value) { v.SetBytes([]byte{0xA5, 0x5A}) })
 		case RZStr16:
 			// UTF-16LE names. Besides plain ASCII: code units with a zero LOW byte (U+0100 "Ā", U+0400 "Ѐ") next to
 			// units with a zero HIGH byte, so that the byte pair 00 00 occurs at an odd offset inside the string
